@@ -130,6 +130,8 @@ def gen_namespace(rng, nsname, thorough, deps, want_blocks=True, main=True, gobj
             mk = rng.random()
             if mk < 0.5:
                 mt = rand_basic()
+            elif mk < 0.56:
+                mt = ['ptr', ['ptr', ['basic', 'char']]]       # char **: the spelling list_names() returns, as a field
             elif mk < 0.6:
                 mt = STRING_OUT
             elif mk < 0.7:
@@ -419,6 +421,12 @@ def gen_namespace(rng, nsname, thorough, deps, want_blocks=True, main=True, gobj
             if want_blocks and rng.random() < 0.8:
                 block(['%s:' % fn['name'], '@self: the object', '@items: (array length=n_items) (nullable): the items',
                        '@n_items: number of items', '', 'Sets the items.'], fn['file'])
+        if rng.random() < 0.25:
+            # ... and as a parameter
+            fn = D({'k': 'function', 'name': '%s_%s_set_names' % (p, sr), 'ret': ['void'],
+                    'params': [SELF, ['names', ['ptr', ['ptr', ['basic', 'char']]]]]}, rng.choice(apis))
+            if want_blocks and rng.random() < 0.5:
+                block(['%s:' % fn['name'], '@self: the object', '@names: (array zero-terminated=1): the names', '', 'Sets names.'], fn['file'])
         if rng.random() < 0.3:
             fn = D({'k': 'function', 'name': '%s_%s_list_names' % (p, sr), 'ret': ['ptr', ['ptr', ['basic', 'char']]],
                     'params': [SELF]}, rng.choice(apis))
@@ -493,7 +501,8 @@ def gen_namespace(rng, nsname, thorough, deps, want_blocks=True, main=True, gobj
             fn = D({'k': 'function', 'name': '%s_attach_to_%s' % (p, sr), 'ret': ['void'],
                     'params': [['target', RP], ['level', ['basic', 'int']]]}, rng.choice(apis))
             if want_blocks:
-                block(['%s: (method)' % fn['name'], '@target: the target', '@level: the level', '', 'Attaches.'], fn['file'])
+                block(['%s: (method)' % fn['name'], '@target: the target', '@level: the level', '', 'Attaches.'] +
+                      rng.choice([[], [], ['', 'Attributes: (doc.role attach)']]), fn['file'])
         if rng.random() < 0.25:
             fn = D({'k': 'function', 'name': '%s_%s_adjust' % (p, sr), 'ret': ['void'],
                     'params': [['self', RP], ['value', ['ptr', ['basic', 'int']]], ['out_rec', RP],
@@ -511,7 +520,13 @@ def gen_namespace(rng, nsname, thorough, deps, want_blocks=True, main=True, gobj
         fn = D({'k': 'function', 'name': '%s_%s_open_simple' % (p, sr), 'ret': ['void'],
                 'params': [['self', ['ptr', ['named', P + records[0]]]], ['mode', ['basic', 'int']]]}, rng.choice(apis))
         if want_blocks:
-            block(['%s: (rename-to %s_%s_open)' % (fn['name'], p, sr), '@self: the object', '@mode: the mode', '', 'Opens.'], fn['file'])
+            if rng.random() < 0.5:
+                block(['%s: (rename-to %s_%s_open)' % (fn['name'], p, sr), '@self: the object', '@mode: the mode', '', 'Opens.'], fn['file'])
+            else:
+                # the deprecated tag-style spelling, on a block whose identifier annotations read
+                # exactly like those of other blocks
+                block(['%s:%s' % (fn['name'], rng.choice(['', ' (skip)', ' (attributes doc.group=core)', ' (method)'])),
+                       '@self: the object', '@mode: the mode', '', 'Opens.', '', 'Rename to: %s_%s_open' % (p, sr)], fn['file'])
     for i in range(rng.randint(0, 2)):
         D({'k': 'function_macro', 'name': '%s_%s_MACRO%d' % (p.upper(), rng.choice(['CHECK', 'IS', 'CAST']), i),
            'params': ['obj', 'val'][:rng.randint(1, 2)]}, rng.choice(apis))
